@@ -487,6 +487,7 @@ type vkDel struct {
 	mu     sync.Mutex
 	meta   int64
 	chatty bool
+	slow   time.Duration
 }
 
 // metadata version 999 of a life means "no metadata at all"; views record it as vkNoMeta
@@ -510,7 +511,13 @@ func vkMetaNum(b []byte) int64 {
 	}
 	return mv
 }
-func (d *vkDel) NotifyMsg([]byte)                {}
+func (d *vkDel) NotifyMsg([]byte) {
+	// an application that is slow to take its messages keeps the hand-off handler busy; the packet listener
+	// (which answers pings inline) must not care
+	if d.slow > 0 {
+		time.Sleep(d.slow)
+	}
+}
 func (d *vkDel) GetBroadcasts(overhead, limit int) [][]byte {
 	if !d.chatty || 255*(1+overhead) > limit {
 		return nil
@@ -665,8 +672,12 @@ const (
 	// a crashed host is frozen: connections to its address are accepted and never read
 	vkStall = 256
 	// the members have IPv6 addresses
-	vkV6  = 512
-	vkMax = 32
+	vkV6 = 512
+	// the application takes a quarter of a probe interval to handle each message it is given
+	vkSlowApp = 1024
+	// compression is switched on at every other member only
+	vkMixComp = 2048
+	vkMax     = 32
 )
 
 type vkSim struct {
@@ -702,6 +713,10 @@ func (s *vkSim) mk(i int) *Memberlist {
 	cfg.IndirectChecks = int(c[4])
 	cfg.DisableTcpPings = c[5]&vkTcpOff != 0
 	cfg.EnableCompression = c[5]&vkComp != 0
+	if c[5]&vkMixComp != 0 {
+		// mid-rollout: every other member compresses what it sends
+		cfg.EnableCompression = i%2 == 1
+	}
 	if c[5]&vkEnc != 0 {
 		cfg.SecretKey = s.vn.keys[0]
 	}
@@ -716,6 +731,9 @@ func (s *vkSim) mk(i int) *Memberlist {
 	cfg.Events = &vkEv{n: s.vn, id: i}
 	s.gen[i]++
 	d := &vkDel{meta: s.gen[i] * 1000, chatty: c[5]&vkChatty != 0}
+	if c[5]&vkSlowApp != 0 {
+		d.slow = s.pi / 4
+	}
 	cfg.Delegate = d
 	s.dels[i] = d
 	m, err := Create(cfg)
@@ -1038,6 +1056,12 @@ func vkCfg(r *vfRng, kind int, N int) []int64 {
 	}
 	if (cfg[8]/4)%3 == 0 {
 		cfg[5] |= vkV6
+	}
+	if (cfg[8]/12)%4 == 0 {
+		cfg[5] |= vkMixComp
+	}
+	if (cfg[8]/48)%5 == 0 && cfg[5]&vkChatty != 0 {
+		cfg[5] |= vkSlowApp
 	}
 	mult := 2 + r.n(4)
 	for i := 0; i < N; i++ {
